@@ -68,10 +68,11 @@ Definition config_of_sx (x : sx) : option config :=
   end.
 Definition variants_of_sx (x : sx) : option variants :=
   match x with
-  | L [a; b; c] =>
-      match asBool a, asBool b, asBool c with
-      | Some a', Some b', Some c' => Some {| tag_after := a'; rerender := b'; empty_raises := c' |}
-      | _, _, _ => None
+  | L [a; b; c; d] =>
+      match asBool a, asBool b, asBool c, asBool d with
+      | Some a', Some b', Some c', Some d' =>
+          Some {| tag_after := a'; rerender := b'; marker_compared := d'; empty_raises := c' |}
+      | _, _, _, _ => None
       end
   | _ => None
   end.
